@@ -185,6 +185,13 @@ class CallFrame(tuple):
     """arguments of an evaluated helper call (an item of the context stack of the condition trace)"""
 
 
+class LoopFrame:
+    """one iteration of a `while` loop on the context stack; `item` = the KD-tree pair the iteration works on, once it is taken"""
+
+    def __init__(self):
+        self.item: Any = None
+
+
 class IdxS(int):
     """index of a point returned by a ball query of the KD-tree model"""
 
@@ -1061,6 +1068,8 @@ class Ev(BlockEval):
 
     # ---- statements
     def _assign(self, t: ast.AST, v: Any) -> None:
+        if self.ctx and isinstance(self.ctx[-1], LoopFrame) and self.ctx[-1].item is None and (isinstance(v, PairIdx) or (isinstance(v, tuple) and len(v) == 2 and all(_isidx(x) for x in v) and any(isinstance(x, IdxS) for x in v))):
+            self.ctx[-1].item = v  # the pair an iteration of a `while` loop takes from its work list
         if isinstance(t, ast.Attribute):
             obj = self.fold(t.value)
             if not isinstance(obj, InstS):
@@ -1116,10 +1125,14 @@ class Ev(BlockEval):
                 self._block(st.orelse)
         elif isinstance(st, ast.While):
             n = 0
-            while self.cond(st.test):
+            # `while pending:` / `while k < len(pairs):` only drives the iteration over a local container: not a condition on the data
+            control = not any(isinstance(x, ast.Attribute) or (isinstance(x, ast.Call) and norm(x.func) != "len") or (isinstance(x, ast.Name) and x.id in OPTIONS) for x in ast.walk(st.test))
+            while (self.fold(st.test) if control else self.cond(st.test)):
                 n += 1
-                if n > 10000:
+                if n > 100000:
                     raise Unknown("while loop does not end")
+                frame = LoopFrame()
+                self.ctx.append(frame)
                 try:
                     self._block(st.body)
                 except _Stop as s:
@@ -1128,6 +1141,8 @@ class Ev(BlockEval):
                     if s.kind == "break":
                         break
                     raise
+                finally:
+                    self.ctx.pop()
         elif isinstance(st, (ast.With, ast.AsyncWith)):
             for it in st.items:
                 v = self.fold(it.context_expr)
@@ -1470,6 +1485,8 @@ class ClashEval:
         atom = res = arg = None
         pair = self._pair_of(tag, ctx)
         for item in reversed(ctx):
+            if isinstance(item, LoopFrame):
+                continue
             flat_ = list(item) if isinstance(item, tuple) and not isinstance(item, PairIdx) else [item]
             if isinstance(item, CallFrame):
                 # arguments of the evaluated helper the condition is in: a single atom argument is a feature of its own
@@ -1502,6 +1519,7 @@ class ClashEval:
             if typed(a.name) and typed(b.name):
                 f["distance above r_a + r_b + extra"] = c.dist > self.radii[a.name[0]] + self.radii[b.name[0]] + (self.extra if opts["enable_molprobity_mode"] else 0.0)
             f["occupancy sum is 1"] = math.isclose(c.occsum, 1.0)
+            f["the pair is a clash by the definition"] = expected_listed(c, opts, self.radii, self.extra) if a is c.a and b is c.b else False
             f["occupancy of the first atom missing"] = a.occupancy is None
             f["occupancy of the second atom missing"] = b.occupancy is None
         elif atom is not None:
@@ -1517,7 +1535,7 @@ class ClashEval:
         handed out by the KD-tree model (a pair of query_pairs; an index of a ball query with the index of the point it was
         asked for), None outside such a loop."""
         pts = self.points.get(tag) or []
-        items = [x for x in reversed(ctx) if not isinstance(x, CallFrame)]
+        items = [x.item if isinstance(x, LoopFrame) else x for x in reversed(ctx) if not isinstance(x, CallFrame) and not (isinstance(x, LoopFrame) and x.item is None)]
         ij = None
         for n, item in enumerate(items):
             if isinstance(item, PairIdx):
@@ -1582,6 +1600,21 @@ class ClashEval:
                     if all(f[nm] != v for f, v in rows):
                         found, neg = nm, True
                         break
+            if found is None and len(vals) == 2:
+                # not one feature: a combination of them? (the value is the same wherever all features of the definition agree)
+                common = set(rows[0][0])
+                for f, _ in rows:
+                    common &= set(f)
+                common.discard("in pair loop")
+                seen_: Dict[Tuple, bool] = {}
+                joint = True
+                for f, v in rows:
+                    kf = tuple(f[nm] for nm in sorted(common))
+                    if seen_.setdefault(kf, v) != v:
+                        joint = False
+                        break
+                if joint:
+                    found = "a combination of features of the definition"
             if found is None and skipped and len(vals) == 1:
                 continue  # constant on the representatives that are left: undecided here, the deviation itself is reported
             out.append((node, found, neg, in_pair, len(rows), len(vals) == 1))
